@@ -448,6 +448,61 @@ theorem relationsHold_splitAndX (C : Codecs) (env : Env) (plen : Nat) :
     · cases hs
     all_goals assumption
 
+/-! ### the normal form of whole-block decodes -/
+
+/-- at `offset = 0` the whole block and `blk[offset:]` are the same bytes -/
+theorem readSub_whole_zero (C : Codecs) (s : UState) (h0 : s.offset = 0) (b : Blk) (f t : String) (ck st : Bool) :
+    runUStmt C s (.readSub b f t none true ck st) = runUStmt C s (.readSub b f t none false ck st) := by
+  simp only [runUStmt, h0, sliceFrom, Nat.zero_le, if_true, List.drop_zero, Bool.false_eq_true, if_false]
+
+/-- the run does not see the normal form -/
+theorem go_normWhole (C : Codecs) : ∀ (stmts : List UStmt) (s : UState),
+    runU.go C s (normWhole stmts) = runU.go C s stmts := by
+  intro stmts
+  induction stmts using normWhole.induct with
+  | case1 b f t ck st r ih =>
+    intro s
+    rw [normWhole]
+    have h1 : runUStmt C s .resetOffset = .next { s with offset := 0 } := by rw [runUStmt]
+    rw [go_next _ h1, go_next _ h1]
+    have h2 := readSub_whole_zero C { s with offset := 0 } rfl b f t ck st
+    rw [runU.go, runU.go, h2]
+    cases runUStmt C { s with offset := 0 } (.readSub b f t none false ck st) with
+    | next s' => exact ih s'
+    | ret => rfl
+    | err => rfl
+    | panic => rfl
+    | stuck => rfl
+  | case2 st r hne ih =>
+    intro s
+    rw [normWhole]
+    · rw [runU.go, runU.go]
+      cases runUStmt C s st with
+      | next s' => exact ih s'
+      | ret => rfl
+      | err => rfl
+      | panic => rfl
+      | stuck => rfl
+    · exact hne
+  | case3 => intro s; rfl
+
+/-- the relations `consistent` checks do not see the normal form -/
+theorem relationsHold_normWhole (C : Codecs) (env : Env) (plen : Nat) : ∀ (stmts : List UStmt) (pad : Nat),
+    relationsHold C env plen pad (normWhole stmts) = relationsHold C env plen pad stmts := by
+  intro stmts
+  induction stmts using normWhole.induct with
+  | case1 b f t ck st r ih =>
+    intro pad
+    rw [normWhole]
+    simp only [relationsHold, ih]
+  | case2 st r hne ih =>
+    intro pad
+    rw [normWhole]
+    · unfold relationsHold
+      cases st <;> simp only [ih]
+    · exact hne
+  | case3 => intro pad; rfl
+
 /-! ### the unmarshal program reads back what the layout encodes -/
 
 theorem runU_go_layout {C : Codecs} {T : String → Prop} (hC : LawfulCodecs C T) (env' : Env) (plen : Nat) (hp hd : Bool)
